@@ -290,7 +290,7 @@ func TestC02(t *testing.T) {
 		},
 		Gen:            genC02,
 		Run:            runC02,
-		QuickChecks:    800,
+		QuickChecks:    2500,
 		ThoroughFactor: 25,
 	})
 }
